@@ -107,6 +107,11 @@ def run(ctx):
             rep.count("outcome", "ok")
             tree = r[1]
             problems = []
+            if tree is None:
+                # the whole result is None: "input containing no statement returns None" (C13) — an empty text, lone
+                # semicolons, and what the library treats as such (an empty BEGIN END block)
+                rep.count("outcome", "no-statement")
+                continue
             walk(tree, nopt, mode, [], problems)
             if not problems:
                 try:
@@ -143,6 +148,7 @@ def replay(ctx, p):
     if r[0] != "ok":
         return False
     problems = []
-    walk(r[1], p["null"], p["calls"], [], problems)
+    if r[1] is not None:
+        walk(r[1], p["null"], p["calls"], [], problems)
     print(problems)
     return bool(problems)
